@@ -119,22 +119,25 @@ macro_rules! stream_case {
 
 /// CTS: encrypt / decrypt vs *_b2b, SYMBOLIC length in [b, M].
 macro_rules! cts_case {
-    ($name:ident, $unw:expr, $ty:ident, $dir:ident, $bs:ty, $b:expr, $par:ty, $m:expr) => {
+    ($name:ident, $unw:expr, $ty:ident, $dir:ident, $bs:ty, $b:expr, $par:ty, $m:expr $(, $lo:expr)?) => {
         #[kani::proof]
         #[kani::unwind($unw)]
         pub fn $name() {
             use cts::{Decrypt, Encrypt};
             const B: usize = $b;
             const M: usize = $m;
+            #[allow(unused_mut, unused_assignments)]
+            let mut lo: usize = B;
+            $( lo = $lo; )?
             let key: [u8; 2] = kani::any();
             let iv: [u8; B] = kani::any();
             let input: [u8; M] = kani::any();
             let dirty: [u8; M] = kani::any();
             let len: usize = kani::any();
-            kani::assume(len >= B && len <= M);
+            kani::assume(len >= lo && len <= M);
             let mut a = input;
             let mut o = dirty;
-            split_on!(len, B, M, l => {
+            split_on!(len, lo, M, l => {
                 let ra = do_oneshot!($dir, crate::common::mk::$ty(Uf::<$bs, $par>::with_key(key), &iv), &mut a[..l]);
                 let rb = do_oneshot_b2b!($dir, crate::common::mk::$ty(Uf::<$bs, $par>::with_key(key), &iv), &input[..l], &mut o[..l]);
                 assert!(ra.is_ok() && rb.is_ok());
@@ -148,7 +151,7 @@ macro_rules! cts_case {
                 }
                 i += 1;
             }
-            kani::cover!(len == B);
+            kani::cover!(len == lo);
             kani::cover!(len == M);
         }
     };
@@ -229,6 +232,9 @@ stream_case!(ctr32be_b4_w2_l5_8, 48, mk_ctr32be_b4, U4, 4, U2, 5, 8);
 stream_case!(ctr64le_b8_w2_l3_14, 64, mk_ctr64le_b8, U8, 8, U2, 3, 14);
 stream_case!(ctr128be_b16_w2_l1_32, 100, mk_ctr128be_b16, U16, 16, U2, 1, 32);
 stream_case!(belt_w2_l17_16, 100, mk_belt, U16, 16, U2, 17, 16);
+cts_case!(cts_cbc_cs1_dec_b1_w2_l8_from6, 48, CbcCs1, dec, U1, 1, U2, 8, 6);
+cts_case!(cts_cbc_cs3_dec_b1_w2_l8_from6, 48, CbcCs3, dec, U1, 1, U2, 8, 6);
+cts_case!(cts_ecb_cs1_enc_b1_w2_l8_from6, 48, EcbCs1, enc, U1, 1, U2, 8, 6);
 cts_case!(cts_cbc_cs1_enc_b2_w2_l7, 48, CbcCs1, enc, U2, 2, U2, 7);
 cts_case!(cts_cbc_cs2_dec_b2_w2_l7, 48, CbcCs2, dec, U2, 2, U2, 7);
 cts_case!(cts_cbc_cs3_enc_b2_w2_l7, 48, CbcCs3, enc, U2, 2, U2, 7);
